@@ -13,7 +13,18 @@ and Clear of the empty tree, Clear twice) and cold race rounds; re-entrant use f
 callback (reads of the same tree, writes to a clone sharing nodes); callbacks that panic (pscan);
 readers of one frozen clone in parallel with writers of its siblings; a call that panics, never
 returns (watchdog -> `stuck`) or kills the process (self-supervision -> `crash`) is an event the
-spec rejects, never exit 2."""
+spec rejects, never exit 2.
+
+Audit 2: nil pivots (= no bound; also in BTreeMech), the same pivot twice, the zero value of
+btree.BTree; item KINDS (struct / pointer / uncomparable slice type); returned scan slices are
+scribbled over after rendering and the call repeated; node sizes around the 16-entry clearing blocks
+and the 32-entry free list (degrees 8..33, free lists 31/32/33), one free list handed through
+degrees 2 -> 8 -> 2; run-length encoded fill / drain / refill events with runs of 255/256/257 and
+65535/65536/65537 items; a scan held inside its callback while a writer moves a node across its
+cursor (gate rounds); Clone in every shape class; saturation (replace after every insert); and an
+exhaustive breadth-first exploration on the real tree of every structure reachable with 9 (thorough
+10) keys at degree 2 - for each recorded state every single ReplaceOrInsert / Delete / DeleteMin /
+DeleteMax on a clone of its own (quick: a sample stratified by shape class)."""
 import hashlib
 import json
 import os
@@ -59,6 +70,7 @@ def run(ctx):
                          "-seed", ctx.seed, "-hist", ctx.q(40, 200), "-maxops", ctx.q(160, 400),
                          "-npar", ctx.q(12, 150), "-nconc", ctx.q(60, 1200), "-nstress", ctx.q(6, 100),
                          "-nrace", ctx.q(30000, 300000), "-nracekeep", ctx.q(900, 8000), "-racesecs", ctx.q(25, 120), "-shapeevery", ctx.q(2, 1), "-ngate", ctx.q(150, 1500), "-longruns",
+                         "-bfskeys", ctx.q(9, 10), "-bfsper", ctx.q(12, 0),
                          "-sweep", ctx.q(4, 10), "-stats", ctx.path("stats.json")],
                 timeout=1800, traces=[ctx.path("seq.ndjson"), ctx.path("conc.ndjson")])
     # 4. validate what the real code did
@@ -88,6 +100,10 @@ def run(ctx):
         "scan callback in ONE goroutine (recursive RLock without a waiting writer), writes only to another handle",
         "a panicking scan callback must leave the tree unchanged and usable (the wrapper unlocks in a defer); "
         "panics inside Less during a write are not exercised",
+        "a nil pivot is 'no bound on that side' (iterate treats a nil start / stop as absent; Ascend / Descend are "
+        "written that way); nil items for Get / Delete / ReplaceOrInsert panic on the unchanged code and are not used",
+        "shape exploration: the real tree (Clone + dump signature) decides WHICH call sequences are recorded; every "
+        "recorded trace is replayed from scratch on a fresh tree and judged by TLC",
         "watchdog: a library call that makes no progress for 20-30 s is logged as `stuck`; a runtime fatal error of "
         "the child process inside neptune is logged as `crash` by the supervising parent",
     ]
